@@ -21,6 +21,9 @@ type PlanC16 struct {
 	WriteChunks []int     `json:"write_chunks"` // how the raw writer splits its writes (cycled), empty = one write per envelope
 	PauseMs     int       `json:"pause_ms"`     // receiver starts late (coalescing)
 	Glue        bool      `json:"glue"`         // write the whole stream with a single Write
+	WriteGapMs  int       `json:"write_gap_ms"` // pause of the raw writer after each write
+	RecvCtxMs   int       `json:"recv_ctx_ms"`  // per-receive context deadline, 0 = 10 min
+	RecvRetry   int       `json:"recv_retry"`   // how often Receive is called again after a receive context expired
 }
 
 const minEnvLen = 40
@@ -114,6 +117,18 @@ func genC16(t *simrt.Tape, tier string) interface{} {
 	}
 	if t.Draw(2) == 0 {
 		p.PauseMs = 1 + t.Draw(2000)
+	}
+	if t.Draw(5) == 0 {
+		// a slow writer against a polling receiver: the envelope trickles in over several
+		// receive operations, each of which runs into its context deadline
+		p.Glue = false
+		p.WriteChunks = nil
+		for i := 1 + t.Draw(3); i > 0; i-- {
+			p.WriteChunks = append(p.WriteChunks, 1+t.Draw(L))
+		}
+		p.WriteGapMs = []int{10, 300, 1000}[t.Draw(3)]
+		p.RecvCtxMs = []int{5, 200, 700, 2500}[t.Draw(4)]
+		p.RecvRetry = 1 + t.Draw(40)
 	}
 	return p
 }
@@ -214,6 +229,9 @@ func runC16(w *World, pi interface{}) {
 					return
 				}
 				stream = stream[k:]
+				if p.WriteGapMs > 0 {
+					time.Sleep(time.Duration(p.WriteGapMs) * time.Millisecond)
+				}
 			}
 			return
 		}
@@ -229,27 +247,44 @@ func runC16(w *World, pi interface{}) {
 	sig := func(i int) string {
 		return fmt.Sprintf("limit=%d size-class=%s", p.Limit, sizeClass(int64(len(frames[i])), L))
 	}
-	for i := range frames {
+	retries := 0
+	for i := 0; i < len(frames); i++ {
 		size := int64(len(frames[i]))
 		_, _, before := dataDir.Counters()
-		rctx, rcancel := context.WithTimeout(context.Background(), 10*time.Minute)
+		tmo := 10 * time.Minute
+		if p.RecvCtxMs > 0 {
+			tmo = time.Duration(p.RecvCtxMs) * time.Millisecond
+		}
+		rctx, rcancel := context.WithTimeout(context.Background(), tmo)
 		env, err := rx.Receive(rctx)
+		expired := rctx.Err() != nil
 		rcancel()
 		_, _, after := dataDir.Counters()
 		consumed := after - before
 		if consumed > L {
 			w.Violate("C16.receive-consumed-more-than-limit", sig(i), "Receive #%d consumed %d bytes from the connection with a read limit of %d (envelope sizes %v)", i, consumed, L, p.Sizes)
 		}
+		if err != nil && expired && p.RecvCtxMs > 0 {
+			// the receive context ran out, which says nothing about the envelope's size; the
+			// caller may call Receive again on the same transport
+			w.Count("receive-context-expired")
+			if retries < p.RecvRetry && rx.Connected() {
+				retries++
+				i--
+				continue
+			}
+			break
+		}
 		if err != nil {
 			w.Count("rejected")
-			if size <= L-2 {
+			if size <= L-2 && retries == 0 {
 				w.Violate("C16.within-limit-rejected", sig(i), "envelope #%d of %d bytes (limit %d) was rejected after %d valid envelopes: %v (sizes %v)", i, size, L, i, err, p.Sizes)
 			}
 			break
 		}
 		w.Count("accepted")
 		if size > 2*L {
-			w.Violate("C16.oversized-accepted", sig(i), "envelope #%d of %d bytes was accepted with a read limit of %d (more than twice the limit; sizes %v)", i, size, L, p.Sizes)
+			w.Violate("C16.oversized-accepted", sig(i), "envelope #%d of %d bytes was accepted with a read limit of %d (more than twice the limit; sizes %v, %d receive operations ran into their context deadline before)", i, size, L, p.Sizes, retries)
 		}
 		m, ok := env.(*lime.Message)
 		if !ok || m.ID != fmt.Sprintf("m%d", i) || canonJSON(m) != frames[i] {
@@ -282,6 +317,6 @@ func init() {
 		MaxSim: 3 * time.Hour,
 		Rule: "plans = (read limit in {256,1000,4096,65536, default 8 MiB in the thorough tier}, 1-12 valid envelopes with exact encoded sizes drawn around the boundaries " +
 			"tiny / limit/2 / limit-2.. / limit-1,limit,limit+1 / between / 2*limit-1..+1 / above 2*limit / 10*limit at every position, receiver = accepted or dialled transport, " +
-			"fragmentation mode, write chunking or a single glued write, late reader for coalescing); non-trivial = the real transport connected and at least one Receive ran; distinct = distinct (plan JSON, event-log hash)",
+			"fragmentation mode, write chunking or a single glued write, late reader for coalescing, a slow writer against a polling receiver that calls Receive again after each expired receive context); non-trivial = the real transport connected and at least one Receive ran; distinct = distinct (plan JSON, event-log hash)",
 	})
 }
